@@ -147,6 +147,19 @@ func checkC09(c C09Case, rec *obs.Recorder) *obs.Violation {
 	if d := base.diff(sres); d != "" {
 		return obs.Violf("token %s: sealed and unsealed twins differ: %s", desc, d)
 	}
+	// "verifies under the same root key": also when the verifier selects the key by identifier
+	if !sameID(T.RootKeyID(), S.RootKeyID()) {
+		return obs.ViolK("keyid", "token %s created with root key id %s: the sealed token reports %s", desc, idText(T.RootKeyID()), idText(S.RootKeyID()))
+	}
+	if id := spec.KeyID; id != nil {
+		other, _ := bridge.RootKey(spec.RootSeed + 4242)
+		keys := map[uint32]ed25519.PublicKey{*id: pub, *id + 1: other}
+		_, eT := T.AuthorizerFor(biscuit.WithRootPublicKeys(keys, &other), bridge.WorldOpts())
+		_, eS := S.AuthorizerFor(biscuit.WithRootPublicKeys(keys, &other), bridge.WorldOpts())
+		if eT != nil || eS != nil {
+			return obs.ViolK("keyid", "token %s with root key id %d, key map {%d: root, %d: other}, default other: unsealed verifies with %v, sealed with %v", desc, *id, *id, *id+1, eT, eS)
+		}
+	}
 	ra, rb := T.RevocationIds(), S.RevocationIds()
 	if len(ra) != len(rb) {
 		return obs.Violf("token %s: sealing changed the number of revocation ids", desc)
@@ -247,6 +260,10 @@ func drawC09(t *rapid.T) C09Case {
 	cfg.PPolicyMatch = 60
 	sc := gen.DrawScenario(t, cfg, gen.SmallProfile)
 	c := C09Case{Spec: TokSpec{RootSeed: rapid.Uint64Range(1, 1<<16).Draw(t, "root"), RngKey: rapid.Uint64Range(1, 1<<32).Draw(t, "rng"), Blocks: sc.Token.Blocks}}
+	if rapid.IntRange(0, 2).Draw(t, "haskeyid") > 0 {
+		id := rapid.SampledFrom([]uint32{0, 0, 1, 7, 1<<32 - 2}).Draw(t, "keyid")
+		c.Spec.KeyID = &id
+	}
 	c.Panel = append(c.Panel, sc.Authz)
 	for i := 0; i < 3; i++ {
 		c.Panel = append(c.Panel, sc.Schema.DrawAuthz(t, sc.Token, cfg))
